@@ -95,6 +95,7 @@ def apply_edits(prog, edits):
             applied.append(kind)
         elif kind == 'raise_instead':
             p['ending'] = 'raise'
+            p['ending_exc'] = V.ENDING_EXCS[e['n'] % len(V.ENDING_EXCS)]
             applied.append(kind)
         elif kind == 'add_new_alias':
             p['outs'].append({'alias': 'added.%d' % len(p['outs']), 'kind': e.get('decl_kind', 'instance'),
@@ -140,7 +141,7 @@ def run_pair(ctx, case):
         cls = PS.build_class(P, rec, W)
         classes.append(cls)
         live = PS.execute(cls, P)
-        if live[0] == 'exc' and live[1] != 'Err':
+        if live[0] == 'exc' and live[1] != P.get('ending_exc', 'Err'):
             raise Violation('operation raised %s into its caller: %r' % (live[1], live[2]), 'live-unexpected-exception')
         rid = W.recording_ids[-1]
         if rec_cas is not fetch_cas:
@@ -199,9 +200,10 @@ def run_pair(ctx, case):
         rep = res.get('r')
         if rep is None:
             raise Violation('playback function did not run', 'replay')
-        if rep[0] == 'exc' and rep[1] not in ('Err', 'OperationExceptionDuringPlayback'):
+        if rep[0] == 'exc' and rep[1] not in (P2.get('ending_exc', 'Err'), 'OperationExceptionDuringPlayback'):
             raise Violation('replayed operation raised %s: %r' % (rep[1], rep[2]), 'replay-raises')
-        rep_outcome = rep if rep[0] == 'ret' else ('interrupt',) if rep[0] == 'interrupt' else ('exc', 'Err')
+        rep_outcome = rep if rep[0] == 'ret' else ('interrupt',) if rep[0] == 'interrupt' else (
+            'exc', P2.get('ending_exc', 'Err'))
         want_rec = image(P, W.outcalls, live)
         want_pb = image(P2, W2.outcalls, rep_outcome)
         got_rec = norm(outputs_map(pb.recorded_outputs, 'recorded_outputs'))
@@ -244,7 +246,8 @@ edit = st.fixed_dictionaries({
 def cases():
     progs = PS.programs(values=V.small_values, in_behs=('ret', 'ret', 'raise'),
                         out_extra={'fail_missing': st.just(False), 'default': st.none()},
-                        extractors=('none', 'none', 'ok', 'calls_output'), swallowed_interrupts=True)
+                        extractors=('none', 'none', 'ok', 'calls_output'), swallowed_interrupts=True,
+                        ending_excs=V.ENDING_EXCS)
     priors = st.lists(st.sampled_from(['failed_replay', 'ok_replay', 'pf_raises']), max_size=2)
     return st.fixed_dictionaries({'prog': progs, 'prior': st.one_of(st.just([]), st.just([]), priors), 'edits': st.one_of(st.just([]), st.lists(edit, min_size=1, max_size=3), st.lists(edit, min_size=1, max_size=3)),
                                   'cassette': st.sampled_from(['memory', 'memory', 'file', 's3', 'async'])})
